@@ -76,7 +76,7 @@ func c16DrawDoc(rt *rapid.T, corp *gen.Corpus) c16Input {
 	case 2:
 		return c16Input{DSL: rapid.SampledFrom(corp.Syntax).Draw(rt, "syntaxDoc"), Origin: "syntax-case"}
 	case 3:
-		m := gen.DSLModel(rt, gen.DSLOpts{Rich: true, Conditions: true, MultiLine: true, MaxTypes: 3, MaxRels: 3})
+		m := gen.DSLModel(rt, gen.DSLOpts{Rich: true, Conditions: true, MultiLine: true, MaxTypes: 3, MaxRels: 3, Scale: true})
 		r := gen.Render(m, &rapidChooser{t: rt}, gen.RenderOpts{})
 		return c16Input{DSL: gen.Mutate(rt, r.Text, all, 2), Origin: "rendered-mutant"}
 	case 4:
